@@ -55,42 +55,20 @@ def structure_case(ctx):
             'block': big, 'obj': obj}
 
 
-DMDC_SIG = {0.0: [(0.5, 0.5), (1.0, 1.0), (1.5, 1.5), (2.0, 2.0)],
-            16.0: [(0.0, 4.0), (3.0, 5.0), (7.5, 8.5)],
-            0.5625: [(0.0, 0.75), (1.0, 1.25)]}
-
-
 def dmdc_structure_case(ctx):
-    """LmiDmdc._create_base_problem on dyadic 'SVD factors' (not orthonormal: structure only) whose regularised singular
-    values sqrt(sigma^2/q + alpha) are exactly representable; returns the protocol line and the constraint block"""
+    """LmiDmdc._create_base_problem on dyadic 'SVD factors' (lc.dmdc_factors); returns the protocol line and the
+    constraint block"""
     rng = ctx.rng
-    rh = rng.randint(1, 2)
-    pt = rh + rng.randint(0, 1)
-    pu = rng.randint(0, 2)
-    rt = rng.randint(1, min(3, pt + pu))
-    q = 4
-    alpha = rng.choice(sorted(DMDC_SIG))
-    ab = [rng.choice(DMDC_SIG[alpha]) for _ in range(rt)]
-    St, Str = np.diag([a for a, _ in ab]), np.diag([b for _, b in ab])
-    sig_tld = np.array([2 * a for a, _ in ab])                 # sigma / sqrt(q) = a
-    ch = [rng.choice([0.5, 1.0, 2.0, 2.5]) for _ in range(rh)]
-    Sh = np.diag(ch)
-    sig_hat = np.array([2 * c for c in ch])
-    Qt, Qh = lc.dyadic(rng, (pt + pu, rt), den=2), lc.dyadic(rng, (pt, rh), den=2)
-    Zt, Zh = lc.dyadic(rng, (q, rt), den=2), lc.dyadic(rng, (q, rh), den=2)
-    prob = lmi.LmiDmdc._create_base_problem(Qt, sig_tld, Zt, Qh, sig_hat, Zh, alpha, 0)
-    Uh = lc.dyadic(rng, (rh, rh + pu), den=2)
-    W = lc.dyadic(rng, (rh, rh), den=2); W = (W + W.T) / 2
+    f = lc.dmdc_factors(rng)
+    prob = lmi.LmiDmdc._create_base_problem(*lc.dmdc_args(f), f['alpha'], 0)
+    Uh = lc.dyadic(rng, (f['rh'], f['rh'] + f['pu']), den=2)
+    W = lc.dyadic(rng, (f['rh'], f['rh']), den=2); W = (W + W.T) / 2
     prob.variables['U_hat'].value = Uh
     prob.variables['W_hat'].value = W
-    blocks = [b for b in lc.constraint_blocks(prob) if b[0].shape[0] == rh + rt]
+    blocks = [b for b in lc.constraint_blocks(prob) if b[0].shape[0] == f['rh'] + f['rt']]
     if not blocks:
         return None
-    line = (f"dmdc {rh} {rt} {pt} {pu} {q} {lc.mat_tok(W)} {lc.mat_tok(Uh[:, :rh])} {lc.mat_tok(Uh[:, rh:].reshape(rh, pu))} "
-            f"{lc.mat_tok(Qh)} {lc.mat_tok(Qt[:pt, :])} {lc.mat_tok(Qt[pt:, :].reshape(pu, rt))} {lc.mat_tok(St)} {lc.mat_tok(Str)} "
-            f"{lc.mat_tok(Sh)} {lc.mat_tok(Zt)} {lc.mat_tok(Zh)}")
-    tag = {'kind': 'dmdc', 'r_hat': rh, 'r_tld': rt, 'p_theta': pt, 'p_upsilon': pu, 'alpha': alpha}
-    return line, blocks[-1][0], float(prob.objective.function.value) - float(np.trace(W)), tag
+    return lc.dmdc_line(f, W, Uh), blocks[-1][0], float(prob.objective.function.value) - float(np.trace(W)), lc.dmdc_tag(f)
 
 
 def check_block(s):
